@@ -45,7 +45,7 @@ SCAN_FUNCS = {"finditer", "search", "match", "findall", "fullmatch", "split", "s
 def check(ctx):
     pkg = package(ctx.tree)
     cname, cfn = species_count_method(pkg)
-    pname, pfn = species_parse_method(pkg)
+    pname, pfn = _tokenizer(pkg, cname)
     ctx.saw(SP, f"Species.{pname}")
     ctx.saw(SP, f"Species.{cname}")
 
@@ -74,6 +74,30 @@ def check(ctx):
     from .c17 import _r3 as installation_rule
     ctx.absorb(lambda sub: installation_rule(sub, package(sub.tree)), "R10",
                only=lambda o: o.key.startswith("Network.") and "installation" in o.key and o.outcome != "MISSING")
+
+
+def _tokenizer(pkg, cname):
+    """(name, FunctionDef) of the tokenizer: the Species method that, with the private steps it was split into put back
+    (pymodel.expanded; the count method stays a call), both scans the name with regular expressions and calls the count method --
+    the smallest such method, so that a pipeline of helpers and the one-piece original are the same function to the rules"""
+    ci = pkg.cls("Species")
+    best = None
+    for name in ci.methods:
+        if name == cname or (name.startswith("__") and name.endswith("__")) or "." in name:
+            continue
+        try:
+            fn = pkg.expanded("Species", name, keep=(cname,))
+        except Exception:
+            continue
+        calls = [c for c in ast.walk(fn) if isinstance(c, ast.Call) and isinstance(c.func, ast.Attribute)]
+        if not any(ast.unparse(c.func) == f"self.{cname}" for c in calls) or not any(c.func.attr in SCAN_FUNCS and c.args for c in calls):
+            continue
+        size = sum(1 for _ in ast.walk(fn))
+        if best is None or size < best[0]:
+            best = (size, name, fn)
+    if best is None:
+        return species_parse_method(pkg)
+    return best[1], best[2]
 
 
 # ------------------------------------------------------------------ R1 / R2
@@ -288,7 +312,8 @@ def _sign_patterns(fn):
 def _r4(ctx, pkg, pfn, pname):
     ci = pkg.cls("Species")
     n = 0
-    fns = [(pname, pfn)] + [(k, ci.methods[k]) for k in ("charge", "basename") if k in ci.methods]
+    # (with the private helpers they call put back: a shared sign-stripping helper is read where it is used)
+    fns = [(pname, pfn)] + [(k, pkg.expanded("Species", k)) for k in ("charge", "basename") if k in ci.methods]
     for name, fn in fns:
         for line, pat, anchored in _sign_patterns(fn):
             n += 1
@@ -456,4 +481,39 @@ BENIGN = [
     {"name": "is-atom-guard-clauses", "file": SP, "old": "        return (\n            len(names) == 1\n            and sum(counts) == 1\n            and self.charge == 0\n            and not self.is_electron\n            and not self.is_surface\n        )",
      "new": "        if self.is_electron or self.is_surface:\n            return False\n        if self.charge != 0:\n            return False\n        return len(names) == 1 and sum(counts) == 1"},
     {"name": "mask-via-span", "file": SP, "old": "                start, end = it.start(), it.end()\n", "new": "                start, end = it.span()\n"},
+]
+
+# ---- the tokenizer split into a pipeline of private steps / patterns precompiled at class level ------------------------------
+_SPLIT = ('        parsename = self.name\n        # remove charge symbols\n        parsename = re.sub(r"\\+*$", "", parsename)\n        parsename = re.sub(r"-*$", "", parsename)\n'
+          '        charge = self.name.replace(parsename, "")\n')
+_SCAN = ('        firstparse = parsename\n        matches = []\n        for c in components:\n            for it in re.finditer(c, firstparse):\n                matches.append(it)\n'
+         '                start, end = it.start(), it.end()\n                # remove the found items to avoid repeatance (e.g. S in Si)\n'
+         '                firstparse = firstparse[:start] + " " * (end - start) + firstparse[end:]\n        matches = sorted(matches, key=lambda x: x.start())\n')
+_PMN = "    def _parse_molecule_name(self, elements: list[str], symbols: list[str]) -> None:\n"
+_SCAN_HELPER = ('    @staticmethod\n    def _scan(text, patterns):\n        rest = text\n        found = []\n        for pat in patterns:\n            for hit in re.finditer(pat, rest):\n'
+                '                found.append(hit)\n                lo, hi = hit.start(), hit.end()\n                rest = rest[:lo] + " " * (hi - lo) + rest[hi:]\n'
+                '        return sorted(found, key=lambda h: h.start())\n\n')
+_SPLIT_HELPER = ('    @staticmethod\n    def _split(full):\n        stem = re.sub(r"\\+*$", "", full)\n        stem = re.sub(r"-*$", "", stem)\n        return stem, full.replace(stem, "")\n\n')
+_PIPE = [{"file": SP, "old": _SPLIT, "new": "        parsename, charge = self._split(self.name)\n"},
+         {"file": SP, "old": _SCAN, "new": "        matches = self._scan(parsename, components)\n"}]
+_CLS_AT = "    _replacement = {}\n"
+_CHARGE = '        pcharge = "".join(re.findall(r"\\+*$", self.name)).count("+")\n        ncharge = "".join(re.findall(r"-*$", self.name)).count("-")'
+BENIGN += [
+    {"name": "tokenizer-pipeline-of-static-steps", "edits": _PIPE + [{"file": SP, "old": _PMN, "new": _SPLIT_HELPER + _SCAN_HELPER + _PMN}]},
+    {"name": "sign-patterns-precompiled-at-class-level", "edits": [
+        {"file": SP, "old": _CLS_AT, "new": _CLS_AT + '    _plus_run = re.compile(r"\\+*$")\n    _minus_run = re.compile(r"-*$")\n'},
+        {"file": SP, "old": _SPLIT, "new": '        parsename = self._plus_run.sub("", self.name)\n        parsename = Species._minus_run.sub("", parsename)\n        charge = self.name.replace(parsename, "")\n'},
+        {"file": SP, "old": _CHARGE, "new": '        pcharge = "".join(self._plus_run.findall(self.name)).count("+")\n        ncharge = "".join(self._minus_run.findall(self.name)).count("-")'}]},
+    {"name": "scan-through-pattern-compiled-per-symbol", "file": SP, "old": "            for it in re.finditer(c, firstparse):\n", "new": "            for it in re.compile(c).finditer(firstparse):\n"},
+]
+MUTANTS += [
+    {"name": "pipeline-scan-step-cuts-the-span-out", "edits": _PIPE + [{"file": SP, "old": _PMN, "new": _SPLIT_HELPER + _SCAN_HELPER.replace('rest[:lo] + " " * (hi - lo) + rest[hi:]', "rest[:lo] + rest[hi:]") + _PMN}],
+     "rules": ["R2"]},
+    {"name": "pipeline-symbols-handed-over-unsorted", "edits": _PIPE + [{"file": SP, "old": _PMN, "new": _SPLIT_HELPER + _SCAN_HELPER + _PMN},
+                                                                       {"file": SP, "old": "components = sorted(elements + symbols, key=len, reverse=True)", "new": "components = elements + symbols"}],
+     "rules": ["R1"]},
+    {"name": "class-level-minus-pattern-unanchored", "edits": [
+        {"file": SP, "old": _CLS_AT, "new": _CLS_AT + '    _plus_run = re.compile(r"\\+*$")\n    _minus_run = re.compile(r"-+")\n'},
+        {"file": SP, "old": _CHARGE, "new": '        pcharge = "".join(self._plus_run.findall(self.name)).count("+")\n        ncharge = "".join(self._minus_run.findall(self.name)).count("-")'}],
+     "rules": ["R4"]},
 ]
